@@ -12,6 +12,7 @@ import operator
 import sqlite3
 
 from common import f2h, VERIF
+import c10_sql
 
 import autofit as af  # noqa: F401  (imports the library the way users do)
 from autofit import database as db
@@ -122,7 +123,7 @@ def wire_aval(v):
         return {"b": v}
     if isinstance(v, str):
         return {"s": v}
-    return {"n": f2h(float(v))}
+    return {"n": f2h(float(v)), "t": c10_sql.num_text(v)}
 
 
 ATTRS = ("id", "name", "unique_tag", "path_prefix", "is_complete", "is_grid_search", "max_log_likelihood")
@@ -901,6 +902,8 @@ def one_case(ctx, dbd, real, pred, orders, slices, chain_query=False, label="gen
         ctx.disagree("driver", case, None, ans)
         return
 
+    check_sql(ctx, case, real, pred, ans, cfg)
+
     # ---- oracle (independent of the model): the property sentence on the real outputs
     problems, want_ids = judge(dbd, real, pred, orders, slices, impl)
     total = total_order(orders, [r for r in recs if r["id"] in set(want_ids)])
@@ -960,6 +963,38 @@ def one_case(ctx, dbd, real, pred, orders, slices, chain_query=False, label="gen
             ctx.disagree("C10.slice-size", case, impl["result"], ans["result"])
 
 
+def check_sql(ctx, case, real, pred, ans, cfg):
+    """the junctions as sets + the printed SQL: the text the real predicate object prints (`fit_query`, what
+    `Aggregator.fits` executes, and `str()`, what `__eq__/__hash__/sorted` use) against the text the model prints
+    from the query it compiled (`fitSql` / `sqlStr` of `compileSTop`), white space normalised, the conjuncts of a
+    junction's fit_query (python set order) sorted on both sides"""
+    if ans.get("fuel_ok_set") is False:
+        ctx.disagree("C10.model-set-merge-depth", case, None, ans.get("render_set"))
+    if ans.get("match_set") != ans.get("direct") and ans.get("wf") and cfg.get("junctionKeepsNot"):
+        ctx.disagree("C10.model-set-compile-vs-direct", case, ans.get("match_set"), ans.get("direct"))
+    if ans.get("dedup_agree") is False:
+        # two different conditions print the same SQL: the code keeps one of them, the theorems keep both
+        ctx.disagree("C10.dedup-by-text-vs-structure", case, None, ans.get("render_set"))
+    try:
+        q = build(real.agg, pred) if pred is not None else real.agg._predicate
+        texts = {"sql": c10_sql.canon_sql(q.fit_query)}
+        raw_str = str(q)
+    except Exception:
+        return  # building the query raises: judged (and classified) from the run itself
+    try:
+        texts["sql_str"] = c10_sql.canon_sql(raw_str)
+    except c10_sql.Ambiguous:
+        ctx.hit("sql-str-has-bare-junction-fit-query")
+    ctx.hit("sql-text-compared")
+    for k, clause in (("sql", "C10.sql-text"), ("sql_str", "C10.sql-str")):
+        if k not in texts:
+            continue
+        model = c10_sql.canon_sql(ans.get(k, ""))
+        if texts[k] != model:
+            ctx.disagree(clause, case, texts[k], model)
+            return
+
+
 def probe_storage(ctx, dbd, real, bad_ids, limit=40):
     """failing-input search after a storage disagreement: one equality query per stored place of the bad fits"""
     n = 0
@@ -1016,7 +1051,7 @@ def wire_pred(p):
     if k == "path":
         c = p["c"]
         if c["k"] == "num":
-            wc = {"k": "num", "v": f2h(float(c["v"]))}
+            wc = {"k": "num", "v": f2h(float(c["v"])), "t": c10_sql.num_text(c["v"])}
         elif c["k"] == "cls":
             wc = {"k": "cls", "path": class_path(class_of(c["name"]))}
         else:
